@@ -556,13 +556,16 @@ def setPermanent (s : St) (rid : Nat) (v : Bool) : St :=
     if v && r.enabled then { s1 with cmdPeriod := cmdRemove (.resp rid) s1.cmdPeriod }
     else { s1 with cmdPeriod := cmdAdd (.resp rid) s1.cmdPeriod }
 
+/-- `if path[0] != '/': path = '/' + path` -/
+def normPath (path : Str) : Str :=
+  match path with
+  | 47 :: _ => path
+  | _ => 47 :: path
+
 /-- `OscFunc(func, path, src_id, recv_port, arg_template=…)` / `OscFunc.matching(…)` -/
 def newResp (s : St) (rid : Nat) (kind : DispKind) (path : Str) (src : Option (Nat × Option Nat))
     (port : Option Nat) (tmpl : Option (List TItem)) (fid : Nat) : St :=
-  let path' := match path with
-    | 47 :: _ => path
-    | _ => 47 :: path
-  let r : Resp := ⟨path', src, port, tmpl, .user fid, false, false, kind⟩
+  let r : Resp := ⟨normPath path, src, port, tmpl, .user fid, false, false, kind⟩
   if (lookupResp s rid).isSome then s          -- identities are fresh: a known id is not created again
   else enable { s with resps := s.resps ++ [(rid, r)] } rid
 
